@@ -626,7 +626,7 @@ def interleaving(recs, seed):
     return out
 
 
-DUMP_EDITS = ["error", "req_content", "resp_content", "status", "host", "port", "path", "req_header", "resp_reason"]
+DUMP_EDITS = ["conn_host_bytes", "error", "req_content", "resp_content", "status", "host", "port", "path", "req_header", "resp_reason"]
 
 
 def _k(d, name):
@@ -684,6 +684,23 @@ def apply_dump_edit(rec, edit, n):
         if k is None: return None
         req[k] = list(req[k]) + [[b"x-old-%d" % (n % 7), b"v-%d" % n]]
         return (b"v-%d" % n).hex()
+    if edit == "conn_host_bytes":
+        # formats that stored connection addresses as bytes: a host that is not valid UTF-8 (what the peer sent / a raw SNI-derived name)
+        hit = False
+        for cn in ("client_conn", "server_conn"):
+            c = rec.get(K(cn))
+            if not isinstance(c, dict): continue
+            for an in ("address", "peername", "sockname", "ip_address", "source_address"):
+                k = _k(c, an)
+                if k is None or not c[k]: continue
+                v = c[k]
+                if isinstance(v, dict):
+                    ak = _k(v, "address")
+                    if ak is not None and v[ak] and isinstance(v[ak][0], bytes):
+                        v[ak] = [b"caf\xe9-%d.example" % n] + list(v[ak][1:]); hit = True
+                elif isinstance(v, (list, tuple)) and isinstance(v[0], bytes):
+                    c[k] = [b"caf\xe9-%d.example" % n] + list(v[1:]); hit = True
+        return "loads" if hit else None
     if edit == "resp_reason" and resp:
         k = _k(resp, "reason") or _k(resp, "msg")
         if k is None: return None
@@ -693,6 +710,7 @@ def apply_dump_edit(rec, edit, n):
 
 
 def read_back(f, edit):
+    if edit == "conn_host_bytes": return "loads"     # what is demanded here: it loads and can be re-saved / re-loaded to the same state
     if edit == "error": return [f.error.msg, f.error.timestamp] if f.error else None
     if edit == "req_content": return f.request.raw_content.hex() if f.request.raw_content is not None else None
     if edit == "resp_content": return f.response.raw_content.hex() if f.response and f.response.raw_content is not None else None
